@@ -220,3 +220,126 @@ def anchors_font(rng):
            "fea": "\n".join(fea), "lib": lib}
     return {"ufo": ufo, "q": rng.choice([1, 1, 5]), "anchorsAbs": anchors, "hasCats": has_cats,
             "markOpts": {"groupMarkClasses": rng.random() < 0.3}}
+
+
+def gdefcurs_font(rng):
+    """Font with categories (incl. invalid values / non-exported glyphs), caret anchors, cursive anchors."""
+    gl = [("a", 0x61), ("b", 0x62), ("f_i", None), ("f_f_i", None), ("acutecomb", 0x301), ("period", 0x2E),
+          ("beh-ar", 0x628), ("beh-ar.init", None), ("beh-ar.fina", None), ("lam-ar", 0x644), ("x.alt", None)]
+    arabic = rng.random() < 0.7
+    latin = rng.random() < 0.7 or not arabic
+    gl = [g for g in gl if (arabic or "-ar" not in g[0]) and (latin or g[0] not in ("a", "b", "f_i", "f_f_i"))]
+    gl = [g for g in gl if rng.random() < 0.9]
+    names = [n for n, _ in gl]
+    glyphs = {}
+    for n, cp in gl:
+        anchors = []
+        if n in ("f_i", "f_f_i") and rng.random() < 0.8:
+            k = 2 if n == "f_f_i" else 1
+            vals = [q4(rng, 100, 600) for _ in range(k)]
+            if rng.random() < 0.3:
+                vals.append(vals[0])                      # duplicate coordinate
+            for j, v in enumerate(vals):
+                anchors.append({"n": f"caret_{j + 1}", "x": v * PS // 4, "y": 0})
+            if rng.random() < 0.3:
+                anchors.append({"n": "vcaret_1", "x": 0, "y": q4(rng, 100, 600) * PS // 4})
+        if rng.random() < 0.6 and n not in ("acutecomb",):
+            suf = rng.choice(["", "", "", ".LTR", ".RTL", ".alt"])
+            r = rng.random()
+            if r < 0.75:
+                anchors.append({"n": "entry" + suf, "x": q4(rng, 0, 500) * PS // 4, "y": q4(rng, -50, 300) * PS // 4})
+            if r > 0.25:
+                anchors.append({"n": "exit" + suf, "x": q4(rng, 0, 500) * PS // 4, "y": q4(rng, -50, 300) * PS // 4})
+        glyphs[n] = {"cs": [box()], "comps": [], "anchors": anchors, "w": (0 if n == "acutecomb" else 500) * PS, "h": 0, "u": [cp] if cp else []}
+    lib = {}
+    cats = {}
+    if rng.random() < 0.75:
+        for n in names:
+            r = rng.random()
+            if r < 0.75:
+                cats[n] = {"acutecomb": "mark", "f_i": "ligature", "f_f_i": "ligature"}.get(n, "base")
+            elif r < 0.8:
+                cats[n] = "component"
+            elif r < 0.85:
+                cats[n] = "unassigned"
+            elif r < 0.9:
+                cats[n] = "Base"       # invalid value (wrong case)
+        if rng.random() < 0.4:
+            cats["no.such.glyph"] = "mark"
+        lib["public.openTypeCategories"] = cats
+    kwargs = {}
+    if rng.random() < 0.25 and len(names) > 2:
+        kwargs["skipExportGlyphs"] = [rng.choice([n for n in names if n not in ("a", "beh-ar", "beh-ar.init", "x.alt")] or ["period"])]
+    fea = []
+    subs = []
+    if "beh-ar.init" in names and "beh-ar" in names:
+        subs.append("sub beh-ar by beh-ar.init;")
+    if "beh-ar.fina" in names and "beh-ar" in names and rng.random() < 0.7:
+        subs.append("sub beh-ar by beh-ar.fina;") if False else None
+    if "x.alt" in names and "a" in names and rng.random() < 0.5:
+        subs.append("sub a by x.alt;")
+    if subs:
+        fea.append("feature ss01 {\n " + "\n ".join(subs) + "\n} ss01;")
+    user_classes = None
+    if rng.random() < 0.15:
+        bases = [n for n in names if n not in ("acutecomb",) and n not in kwargs.get("skipExportGlyphs", [])][:3]
+        marks = [n for n in names if n == "acutecomb" and n not in kwargs.get("skipExportGlyphs", [])]
+        if bases:
+            fea.append("table GDEF {\n GlyphClassDef [%s], , [%s], ;\n} GDEF;" % (" ".join(bases), " ".join(marks)))
+            user_classes = {"base": bases, "mark": marks}
+    ufo = {"glyphs": glyphs, "order": names, "glyphNames": names,
+           "info": {"unitsPerEm": 1000, "ascender": 800, "descender": -200, "familyName": "GdefTest", "styleName": "Regular"},
+           "fea": "\n".join(fea), "lib": lib}
+    return {"ufo": ufo, "kwargs": kwargs, "userClasses": user_classes}
+
+
+def full_font(rng):
+    """kerning + attaching anchors (+ cursive anchors), single- and multi-script, with / without languagesystems"""
+    sets = [("latin", True)]
+    if rng.random() < 0.5:
+        sets.append(("arab", True))
+    if rng.random() < 0.4:
+        sets.append(("cyrl", True))
+    if rng.random() < 0.2:
+        sets = [s for s in sets if s[0] != "latin"] or sets
+    gl = []
+    for cls, _ in sets:
+        gl += REPERTOIRE[cls][:3]
+    gl += [("period", 0x2E), ("acutecomb", 0x301)]
+    if any(c == "arab" for c, _ in sets):
+        gl.append(("fatha-ar", 0x64E))
+    names = [n for n, _ in gl]
+    glyphs = {}
+    for n, cp in gl:
+        mark = n in ("acutecomb", "fatha-ar")
+        anchors = []
+        if mark:
+            anchors.append({"n": "_top", "x": 0, "y": 500 * PS})
+        elif n != "period" and rng.random() < 0.8:
+            anchors.append({"n": "top", "x": rng.randint(100, 300) * PS, "y": rng.randint(500, 700) * PS})
+        if n.endswith("-ar") and not mark and rng.random() < 0.6:
+            anchors.append({"n": "entry", "x": 400 * PS, "y": 0})
+            anchors.append({"n": "exit", "x": 0, "y": 0})
+        glyphs[n] = {"cs": [box()], "comps": [], "anchors": anchors, "w": (0 if mark else 500) * PS, "h": 0, "u": [cp]}
+    kerning = []
+    for cls, _ in sets:
+        items = [n for n, _ in REPERTOIRE[cls][:3]]
+        if len(items) >= 2 and rng.random() < 0.85:
+            kerning.append([items[0], items[1], -40 * 4])
+    if rng.random() < 0.5:
+        kerning.append(["period", "period", 10 * 4])
+    r = rng.random()
+    decl = []
+    if r < 0.35:
+        decl = []
+    elif r < 0.5:
+        decl = ["DFLT"]
+    elif r < 0.75:
+        decl = ["DFLT"] + [{"latin": "latn", "arab": "arab", "cyrl": "cyrl"}[c] for c, _ in sets[:1]]
+    else:
+        decl = ["DFLT"] + [{"latin": "latn", "arab": "arab", "cyrl": "cyrl"}[c] for c, _ in sets]
+    fea = "\n".join(f"languagesystem {t} dflt;" for t in decl)
+    ufo = {"glyphs": glyphs, "order": names, "glyphNames": names,
+           "info": {"unitsPerEm": 1000, "ascender": 800, "descender": -200, "familyName": "LayoutTest", "styleName": "Regular"},
+           "kerning": kerning, "kernScale": 4, "fea": fea, "lib": {}}
+    return {"ufo": ufo, "declared": decl}
